@@ -111,14 +111,14 @@ def build_unit(unit, workcopy, dropped=()):
         src = get_src(item["file"])
         kind = item["path"].split("/")[-1].strip().split(" ")[0]
         out.append("// ---- extracted from %s: %s ----\n" % (item["file"], item["path"]))
-        if kind == "fn" and ("loop" in item or "closure" in item):
+        if kind == "fn" and ("loop" in item or "closure" in item or "arm_re" in item):
             loc = vx.locate(src, item["path"])
             ed = Edits(src.text)
             lo, hi = vx.extract_block_as_fn(src, loc, item, ed)
             log.extend(ed.log)
             if item.get("obligation"):
                 fn_ob[item["as_fn"]] = item["obligation"]
-            under_contract.append("%s :: %s (%s #%d)" % (item["file"], item["path"], "loop" if "loop" in item else "closure", item.get("loop", item.get("closure"))))
+            under_contract.append("%s :: %s (%s #%d)" % (item["file"], item["path"], "loop" if "loop" in item else ("arm" if "arm_re" in item else "closure"), item.get("loop", item.get("closure", item.get("arm_index", 0)))))
             out.append(ed.apply(lo, hi) + "\n\n")
         elif kind == "fn":
             out.append(emit_fn(src, item) + "\n\n")
